@@ -64,8 +64,8 @@ func runC03(c *Ctx) {
 		var add, wh ssa.Instruction
 		EachInstr(f, func(i ssa.Instruction) {
 			if IsCall(i, "(net/http.Header).Add", "(net/http.Header).Set") {
-				k, _ := ConstString(CallOf(i).Args[1])
-				v, _ := ConstString(CallOf(i).Args[2])
+				k, _ := ConstString(PArgs(CallOf(i))[1])
+				v, _ := ConstString(PArgs(CallOf(i))[2])
 				if strings.EqualFold(k, "transfer-encoding") && v == "chunked" {
 					add = i
 				}
@@ -121,7 +121,7 @@ func ruleTrailerTokenised(c *Ctx, p *Prog, rule string) {
 		if call, ok := v.(*ssa.Call); ok {
 			n := CalleeName(call.Common())
 			if n == "(net/http.Header).Values" || n == "(net/http.Header).Get" || n == "(net/textproto.MIMEHeader).Values" {
-				k, _ := ConstString(call.Call.Args[1])
+				k, _ := ConstString(PArgs(&call.Call)[1])
 				return strings.EqualFold(k, "Trailer")
 			}
 		}
@@ -138,8 +138,8 @@ func ruleTrailerTokenised(c *Ctx, p *Prog, rule string) {
 		}
 		switch CalleeName(call.Common()) {
 		case "strings.Split", "strings.SplitN", "strings.SplitAfter", "strings.FieldsFunc", "strings.Cut":
-			if len(call.Call.Args) >= 2 {
-				sep, ok := ConstString(call.Call.Args[1])
+			if len(PArgs(&call.Call)) >= 2 {
+				sep, ok := ConstString(PArgs(&call.Call)[1])
 				return ok && sep == "," || CalleeName(call.Common()) == "strings.FieldsFunc"
 			}
 		case "golang.org/x/net/http/httpguts.HeaderValuesContainsToken":
@@ -162,7 +162,7 @@ func ruleTrailerTokenised(c *Ctx, p *Prog, rule string) {
 			case *ssa.Call:
 				switch CalleeName(x.Common()) {
 				case "(net/http.Header).Add", "(net/http.Header).Set", "(net/http.Header).Get", "(net/http.Header).Del", "(net/http.Header).Values":
-					key, what = x.Call.Args[1], "header key argument"
+					key, what = PArgs(&x.Call)[1], "header key argument"
 				}
 			}
 			if key == nil {
@@ -196,7 +196,7 @@ func latchStores(fn *ssa.Function) []*ssa.Store {
 			return
 		}
 		base, _, ok := FieldAddrOf(st.Addr)
-		if !ok || !rootIs(base, fn.Params[0]) {
+		if !ok || !rootIs(base, ParamAt(fn, 0)) {
 			return
 		}
 		if cv, ok := st.Val.(*ssa.Const); ok && cv.Value != nil && cv.Value.Kind() == constant.Bool && constant.BoolVal(cv.Value) {
@@ -209,10 +209,10 @@ func latchStores(fn *ssa.Function) []*ssa.Store {
 // statusEnv: the status parameter has value v; loads of receiver bool fields named like the latch are false.
 func statusEnv(fn *ssa.Function, v int64, latchField string) Env {
 	return func(x ssa.Value) (constant.Value, bool) {
-		if len(fn.Params) >= 2 && x == ssa.Value(fn.Params[1]) {
+		if len(fn.Params) >= 2 && x == ssa.Value(ParamAt(fn, 1)) {
 			return IntC(v), true
 		}
-		if base, f, ok := FieldLoad(x); ok && f == latchField && rootIs(base, fn.Params[0]) {
+		if base, f, ok := FieldLoad(x); ok && f == latchField && rootIs(base, ParamAt(fn, 0)) {
 			return constant.MakeBool(false), true
 		}
 		return nil, false
@@ -450,7 +450,7 @@ func hopPredicate(cond ssa.Value, depth int) (ssa.Value, bool) {
 		}
 	case *ssa.Call:
 		if strings.HasSuffix(CalleeName(x.Common()), "/server.isHopByHopHeader") {
-			return x.Call.Args[0], true
+			return PArgs(&x.Call)[0], true
 		}
 		if h, ok := x.Call.Value.(*ssa.Function); ok && IsNewHelper(h) && depth < 3 {
 			if rs := helperResults(x, 0); len(rs) == 1 {
@@ -464,8 +464,8 @@ func hopPredicate(cond ssa.Value, depth int) (ssa.Value, bool) {
 						break
 					}
 					for k, prm := range h.Params {
-						if v == ssa.Value(prm) && k < len(x.Call.Args) {
-							return x.Call.Args[k], true
+						if v == ssa.Value(prm) && k < len(PArgs(&x.Call)) {
+							return PArgs(&x.Call)[k], true
 						}
 					}
 				}
@@ -487,7 +487,7 @@ func sameKey(a, b ssa.Value) bool {
 		if cl, ok := Peel(*v).(*ssa.Call); ok {
 			switch CalleeName(cl.Common()) {
 			case "net/http.CanonicalHeaderKey", "net/textproto.CanonicalMIMEHeaderKey":
-				*v = cl.Call.Args[0]
+				*v = PArgs(&cl.Call)[0]
 			}
 		}
 	}
@@ -521,7 +521,7 @@ func ruleHopGuardsResponse(c *Ctx, p *Prog, rule string) {
 				}
 			case *ssa.Call:
 				if n := CalleeName(x.Common()); n == "(net/http.Header).Add" || n == "(net/http.Header).Set" {
-					key, dest = x.Call.Args[1], x.Call.Args[0]
+					key, dest = PArgs(&x.Call)[1], PArgs(&x.Call)[0]
 					isSet = n == "(net/http.Header).Set"
 				}
 			}
@@ -727,8 +727,8 @@ func knownGuard(cond ssa.Value, fn *ssa.Function) bool {
 		for _, pair := range [][2]ssa.Value{{x.X, x.Y}, {x.Y, x.X}} {
 			if n, isC := ConstInt(pair[1]); isC && n == 0 {
 				if cl, isCall := pair[0].(*ssa.Call); isCall {
-					if b, isB := cl.Call.Value.(*ssa.Builtin); isB && b.Name() == "len" && len(cl.Call.Args) == 1 {
-						if e, isE := cl.Call.Args[0].(*ssa.Extract); isE && e.Index == 2 {
+					if b, isB := cl.Call.Value.(*ssa.Builtin); isB && b.Name() == "len" && len(PArgs(&cl.Call)) == 1 {
+						if e, isE := PArgs(&cl.Call)[0].(*ssa.Extract); isE && e.Index == 2 {
 							if _, isNext := e.Tuple.(*ssa.Next); isNext {
 								return true
 							}
@@ -746,7 +746,7 @@ func knownGuard(cond ssa.Value, fn *ssa.Function) bool {
 		}
 		// comparisons of the status parameter with constants
 		if len(fn.Params) >= 2 {
-			if x.X == ssa.Value(fn.Params[1]) || x.Y == ssa.Value(fn.Params[1]) {
+			if x.X == ssa.Value(ParamAt(fn, 1)) || x.Y == ssa.Value(ParamAt(fn, 1)) {
 				return true
 			}
 		}
